@@ -165,12 +165,13 @@ class ScriptedAdversary(Scheduling):
     the plan on pseudo-random machines drawn from rng, including busy ones;
     'legal': ready tasks on free machines so that runs complete)."""
 
-    def __init__(self, script, rng, sink, wild_rounds=6):
+    def __init__(self, script, rng, sink, wild_rounds=6, prov=0):
         super().__init__()
         self.script, self.rng, self.sink = script, rng, sink
         self.rounds = {}
         self.wild_rounds = wild_rounds
         self.foreign = None
+        self.prov = prov     # reserve this many machines per workflow and leave the release to the scheduler
 
     def __repr__(self):
         return "ScriptedAdversary"
@@ -186,6 +187,9 @@ class ScriptedAdversary(Scheduling):
         self.rounds[o] = r + 1
         if self.foreign is None:
             self.foreign = Foreign(cluster.machines[0])
+        if (self.prov > 0 and r == 0 and not cluster.is_observation_provisioned(o)
+                and len(cluster.get_available_resources()) > 0):
+            cluster.provision_batch_resources(self.prov, o)
         alloc = copy.copy(existing_schedule)
         by_k = {task_key(t)[1]: t for t in workflow_plan.tasks}
         if (o, r) in self.script:
@@ -206,7 +210,7 @@ class ScriptedAdversary(Scheduling):
             # tasks on currently available machines
             for t in list(alloc):
                 alloc.pop(t)
-            free = cluster.get_available_resources()
+            free = cluster.get_available_resources() + cluster.get_idle_resources(o)
             for t in workflow_plan.tasks:
                 if not free:
                     break
